@@ -51,9 +51,13 @@ def bindings_and_forms(s, fn):
     # reference binding = the interpreter itself on a shadow function with the same parameter list returning
     # locals() (CPython 3.12's Signature.bind rejects a keyword named like a defaulted positional-only parameter
     # that Python routes to **kwargs)
-    ns = {}
-    exec("def shadow(%s):\n    return locals()\n" % sigs.sig_text(s), ns)
-    shadow = ns["shadow"]
+    is_method = inspect.ismethod(fn)
+
+    def shadow(*a, **k):
+        loc = sigs.interpreter_binding(s, a, k, method=is_method)
+        if loc is None:
+            raise TypeError("rejected by the interpreter")
+        return loc
     names = sigs.param_names(s)
     kinds = [k for k, _ in s]
     defaulted = [names[i] for i, (k, d) in enumerate(s) if d]
